@@ -37,7 +37,7 @@ Proof. unfold merge. repeat bm; simpl; auto. Qed.
 
 Lemma del_claim_some p c : del_claim p = Some c -> exists c0, p = Some c0 /\ c_l c = c_l c0 /\ c_del c = true.
 Proof.
-  destruct p as [c0|]; simpl; [|discriminate]. destruct (c_fin c0); [|discriminate].
+  destruct p as [c0|]; simpl; [|discriminate]. destruct (c_fin c0 || c_ffin c0)%bool; [|discriminate].
   intros H. injection H as <-. exists c0. repeat split.
 Qed.
 
@@ -98,7 +98,7 @@ Proof.
   destruct (eff_wr (r_pc r) (f_unfin pl)); injection H as <- _ _; simpl;
     (split; [reflexivity|split; [reflexivity|split; [reflexivity|]]]); try apply pc_sum_refl.
   destruct (r_pc r) as [p|]; [|left; reflexivity].
-  destruct (c_del p) eqn:D; [left; reflexivity|].
+  destruct (c_del p && negb (c_ffin p))%bool eqn:D; [left; reflexivity|].
   right. exists p, (cl_fin p false). repeat split; simpl; auto; try congruence.
 Qed.
 
@@ -107,6 +107,8 @@ Lemma finalize_sum k pl s v s' e q : finalize k pl s v = (s', (e, q)) ->
 Proof.
   unfold finalize. intros H.
   destruct (negb (c_fin v)).
+  { injection H as <- _ _. repeat split; try reflexivity. apply pc_sum_refl. }
+  destruct (match c_r v, c_pid v with RTrue, Some _ => f_list_fin pl | _, _ => false end).
   { injection H as <- _ _. repeat split; try reflexivity. apply pc_sum_refl. }
   set (r := init_rs s (norm v)) in *.
   assert (Base : forall r1, r_made r1 = made s -> r_ch r1 = ch s -> r_pc r1 = pc s -> forall e1 q1,
@@ -140,7 +142,8 @@ Proof.
       * injection H as <- _ _. simpl. repeat split; try reflexivity. exact PS.
       * apply (Unf _) in H; [exact H|reflexivity|reflexivity|exact PS].
   - destruct (r_nd r) as [nn|] eqn:En.
-    + eapply Base; [| | |exact H]; repeat bm; reflexivity.
+    + destruct (negb (n_del nn) && f_ndel_err pl); [eapply Base; [| | |exact H]; reflexivity|].
+      eapply Base; [| | |exact H]; repeat bm; reflexivity.
     + destruct (c_pid v) as [p|]; [|apply (Unf r); try reflexivity; [apply pc_sum_refl|exact H]].
       destruct (f_pdel_err pl); [eapply Base; [| | |exact H]; reflexivity|].
       cbv zeta in H.
@@ -299,7 +302,7 @@ Qed.
 
 Lemma PL_del_claim x : PL x -> PL (del_claim x).
 Proof.
-  intros [->|(p & -> & Hl)]; [left; reflexivity|]. simpl. destruct (c_fin p); [|left; reflexivity].
+  intros [->|(p & -> & Hl)]; [left; reflexivity|]. simpl. destruct (c_fin p || c_ffin p)%bool; [|left; reflexivity].
   right. eexists. split; [reflexivity|exact Hl].
 Qed.
 
@@ -338,7 +341,7 @@ Proof.
     + apply Inv.
     + intros v Hv Hl. apply PL_del_claim. exact (i_i _ Inv v Hv Hl).
     + intros v Hv Hd. destruct (pc s) as [p|]; simpl; [|left; reflexivity].
-      destruct (c_fin p); [right; eexists; split; [reflexivity|reflexivity]|left; reflexivity].
+      destruct (c_fin p || c_ffin p)%bool; [right; eexists; split; [reflexivity|reflexivity]|left; reflexivity].
     + intros Hv. rewrite (i_iv _ Inv Hv). reflexivity.
     + intros Hm. destruct (i_s _ Inv Hm) as [C|[C|[C1 C2]]]; [left; exact C|right; left; exact C|].
       right. right. split; [exact C1|apply PL_del_claim; exact C2].
@@ -351,6 +354,25 @@ Proof.
   - destruct (nd s); [|exact Inv]. apply (inv1_ext s); auto.
   - apply (inv1_ext s); auto.
   - destruct (dp s); [exact Inv|]. apply (inv1_ext s); auto.
+  - (* ForeignFin *)
+    destruct (set_ffin_cases (pc s) b) as [E|(c & Hc & E)].
+    + constructor; simpl; rewrite ?E.
+      * apply Inv.
+      * intros v Hv Hl. left. reflexivity.
+      * intros v Hv Hd. left. reflexivity.
+      * reflexivity.
+      * intros Hm. destruct (i_s _ Inv Hm) as [C|[C|[C1 C2]]]; [left; exact C|right; left; exact C|].
+        right. right. split; [exact C1|left; reflexivity].
+    + constructor; simpl; rewrite ?E.
+      * apply Inv.
+      * intros v Hv Hl. destruct (i_i _ Inv v Hv Hl) as [C|(p & Hp & Hpl)]; [congruence|].
+        right. eexists. split; [reflexivity|]. simpl. congruence.
+      * intros v Hv Hd. destruct (i_iii _ Inv v Hv Hd) as [C|(p & Hp & Hpd)]; [congruence|].
+        right. eexists. split; [reflexivity|]. simpl. congruence.
+      * intros Hv. rewrite (i_iv _ Inv Hv) in Hc. discriminate.
+      * intros Hm. destruct (i_s _ Inv Hm) as [C|[C|[C1 C2]]]; [left; exact C|right; left; exact C|].
+        right. right. split; [exact C1|]. destruct C2 as [C2|(p & Hp & Hpl)]; [congruence|].
+        right. eexists. split; [reflexivity|]. simpl. congruence.
 Qed.
 
 (* number of successful creates in the frames = instances made *)
@@ -411,9 +433,9 @@ Qed.
 
 (* Both hypotheses are needed. *)
 Definition okp : plan :=
-  mkPlan WOk POk WOk false HReady WOk WOk false WOk WOk WOk WOk WOk WOk WOk false WOk WOk.
+  mkPlan WOk POk WOk false HReady WOk WOk false WOk WOk WOk WOk WOk WOk WOk false WOk WOk false false.
 Definition status_lost : plan :=
-  mkPlan WOk POk WOk false HReady WOk WOk false WOk WOk WOk WOk WOk WOk WErr false WOk WOk.
+  mkPlan WOk POk WOk false HReady WOk WOk false WOk WOk WOk WOk WOk WOk WErr false WOk WOk false false.
 Definition k0 : cfg := mkCfg 3600 300 900 true false false false false.
 
 Lemma restart_duplicates : total_creates (trace k0 [Rec status_lost; Restart; Rec okp]) = 2%nat.
